@@ -349,7 +349,9 @@ fn walk_chunk_inner(w: &mut W, ctype: u16, frame: usize, m: &mut Map) -> Option<
             w.u16("y", Kind::Offset)?;
             w.u8("opacity", Kind::Value)?;
             let ct = w.u16("cel-type", Kind::Enum)?;
-            w.blob(7, "reserved", Kind::Reserved)?;
+            // Aseprite 1.3 stores a signed z-index here (the pinned tree ignores it)
+            w.u16("z-index", Kind::Index)?;
+            w.blob(5, "reserved", Kind::Reserved)?;
             let mut cs = CelSummary {
                 frame,
                 layer: layer as u16,
